@@ -122,7 +122,7 @@ func Parse(dest interface{}, cacheStore *sync.Map, namer Namer) (*Schema, error)
 
 // ParseWithSpecialTableName get data type from dialector with extra schema table
 func ParseWithSpecialTableName(dest interface{}, cacheStore *sync.Map, namer Namer, specialTableName string) (*Schema, error) {
-	schema, err := parseWithSpecialTableName(dest, cacheStore, namer, specialTableName)
+	schema, err := parseWithSpecialTableName(dest, cacheStore, namer, specialTableName, true)
 	if err == nil && schema != nil {
 		// a schema reached through a relationship is taken from the cache without
 		// waiting (the parsing goroutine itself may be initializing it further up
@@ -164,7 +164,7 @@ func (schema *Schema) waitForRelated() {
 	}
 }
 
-func parseWithSpecialTableName(dest interface{}, cacheStore *sync.Map, namer Namer, specialTableName string) (*Schema, error) {
+func parseWithSpecialTableName(dest interface{}, cacheStore *sync.Map, namer Namer, specialTableName string, topLevel bool) (*Schema, error) {
 	if dest == nil {
 		return nil, fmt.Errorf("%w: %+v", ErrUnsupportedDataType, dest)
 	}
@@ -205,6 +205,16 @@ func parseWithSpecialTableName(dest interface{}, cacheStore *sync.Map, namer Nam
 		// Wait for the initialization of other goroutines to complete
 		<-s.initialized
 		return s, s.err
+	}
+
+	if topLevel {
+		// Schemas related to each other read and modify each other while they are
+		// parsed (a schema is cached before its relationships are parsed), so only
+		// one goroutine at a time parses new schemas into a cache store; the schemas
+		// it meets on the way are parsed by nested calls under the same lock
+		mux, _ := cacheStore.LoadOrStore(parseLockCacheKey, &sync.Mutex{})
+		mux.(*sync.Mutex).Lock()
+		defer mux.(*sync.Mutex).Unlock()
 	}
 
 	modelValue := reflect.New(modelType)
@@ -467,5 +477,5 @@ func getOrParse(dest interface{}, cacheStore *sync.Map, namer Namer) (*Schema, e
 		return v.(*Schema), nil
 	}
 
-	return parseWithSpecialTableName(dest, cacheStore, namer, "")
+	return parseWithSpecialTableName(dest, cacheStore, namer, "", false)
 }
